@@ -869,7 +869,8 @@ impl Parser {
 
         if !self.expect(TokenKind::Syllable) { return Ok(None) }
         if !self.expect(TokenKind::Colon) {
-            let end_pos = self.curr_tkn.position.start - 1;
+            // the element ends where its last token ends, whether or not a blank follows it
+            let end_pos = self.token_list[self.pos-1].position.end;
             if self.expect(TokenKind::Equals) {
                 let Some(number) = self.eat_expect(TokenKind::Number) else {
                     return Err(RuleSyntaxError::ExpectedVariable(self.curr_tkn.clone()))
@@ -923,7 +924,8 @@ impl Parser {
         }
 
         if !self.expect(TokenKind::Colon) {
-            let end_pos = self.curr_tkn.position.start - 1;
+            // the element ends where its last token ends, whether or not a blank follows it
+            let end_pos = self.token_list[self.pos-1].position.end;
             if self.expect(TokenKind::Equals) {
                 let Some(number) = self.eat_expect(TokenKind::Number) else {
                     return Err(RuleSyntaxError::ExpectedVariable(self.curr_tkn.clone()))
